@@ -1,6 +1,7 @@
 /- protocol handler for the legacy state machine (glue: decoding, token bookkeeping, weak-value
    collection of dead temporaries, the state dump).  Nothing here is referenced by a theorem. -/
 import PyOak.Model.Legacy
+import PyOak.Model.LegacyTransform
 namespace PyOak
 open Sexp Legacy
 
@@ -72,6 +73,32 @@ def decodeOp (classes : List ClassInfo) (toks : Array Nat) : Sexp → Option LOp
     pure (.rwith (← toks[(← asNat? t)]?) n)
   | .list [.atom "dup", t, b] => do pure (.dup (← toks[(← asNat? t)]?) (← asBool? b))
   | _ => none
+
+/-- `(rules (cls v|none act)…)`, act = `remove` | `raise` | `(set (name txt compare)…)` | `(make <new request>)` -/
+def decodeRule (classes : List ClassInfo) (toks : Array Nat) : Sexp → Option Rule
+  | .list [cls, pv, act] => do
+    let prop ← match pv with
+      | .atom "none" => pure none
+      | .list [n, t] => do pure (some ((← asStr? n), (← asStr? t)))
+      | _ => none
+    let act ← match act with
+      | .atom "remove" => pure Act.remove
+      | .atom "raise" => pure Act.raise
+      | .list [.atom "set", .list props] => do pure (Act.set (← decodeProps props))
+      | .list [.atom "make", req] => do
+        match ← decodeOp classes toks req with
+        | .new spec => pure (Act.make spec)
+        | _ => none
+      | _ => none
+    pure { cls := ← asStr? cls, prop := prop, act := act }
+  | _ => none
+
+def decodeOpX (classes : List ClassInfo) (toks : Array Nat) : Sexp → Option LOpX
+  | .list [.atom "tvisit", t, .list (.atom "rules" :: rs)] => do
+    pure (.tvisit (← toks[(← asNat? t)]?) (← rs.mapM (decodeRule classes toks)))
+  | .list [.atom "texec", t, .list (.atom "rules" :: rs)] => do
+    pure (.texec (← toks[(← asNat? t)]?) (← rs.mapM (decodeRule classes toks)))
+  | x => (decodeOp classes toks x).map .base
 
 /-- discovery of new objects in the harness' order: the result first, then the closure of the
 known objects under child links (scanning the growing table) -/
@@ -161,9 +188,9 @@ structure HState where
   out : List Sexp := []
 
 def runOp (classes : List ClassInfo) (h : HState) (req : Sexp) : Option HState := do
-  let op ← decodeOp classes h.toks req
+  let op ← decodeOpX classes h.toks req
   let n0 := h.s.size
-  let (s1, out) := step Hd Hcd h.s op
+  let (s1, out) := stepX Hd Hcd h.s op
   let toks1 := match out with
     | .node u => if h.toks.contains u then h.toks else h.toks.push u
     | _ => h.toks
